@@ -547,6 +547,31 @@ def explicit_parse_failures(ctx):
     leaf = "n" / C.Int16ub
     leaf.parse(b"\x00\x01")
     cases.append(("reused-named-object:leaf", C.Struct("a" / C.Struct("b" / leaf)), b"\x00", ["a", "b", "n"], "parse"))
+    # the structure-building macros: every member is named once, whatever the macro wraps around it (alignment padding belongs to the member)
+    hook = lambda obj, c: None
+    for mname, mk in (("alignedstruct", lambda *m, **kw: C.AlignedStruct(4, *m, **kw)), ("bitstruct", None)):
+        if mk is None:
+            continue
+        al = mk("a" / C.Byte, ("b" / C.Struct("c" / C.Int16ub, "d" / C.Bytes(3))) * "documented", ("e" / C.Int16ub) * hook, C.Padding(1), f=C.Byte)
+        full = al.build(dict(a=1, b=dict(c=2, d=b"xyz"), e=3, f=4))
+        for cut, chain in ((0, ["a"]), (2, ["a"]), (4, ["b", "c"]), (5, ["b", "c"]), (7, ["b", "d"]), (9, ["b"]), (11, ["b"]), (12, ["e"]), (13, ["e"]), (15, ["e"]), (16, []), (20, ["f"]), (22, ["f"])):
+            cases.append(("macro-member-named-once:%s:parse" % mname, al, full[:cut], chain, "parse"))
+            cases.append(("macro-member-named-once:%s:parse-wrapped" % mname, C.Struct("hdr" / C.Pass, "w" / al), full[:cut], ["w"] + chain, "parse"))
+        cases.append(("macro-member-named-once:%s:build" % mname, al, dict(a=1, b=dict(c=2, d=b"xy"), e=3, f=4), ["b", "d"], "build"))
+        cases.append(("macro-member-named-once:%s:build" % mname, al, dict(a=1, b=dict(c=2, d=b"xyz"), e=70000, f=4), ["e"], "build"))
+        cases.append(("macro-member-named-once:%s:build" % mname, al, dict(a=1, b=dict(c=2, d=b"xyz"), e=3, f="x"), ["f"], "build"))
+        cases.append(("macro-member-named-once:%s:sizeof" % mname, mk("a" / C.Byte, "g" / C.Struct("h" / C.GreedyBytes)), None, ["g", "h"], "sizeof"))
+        cases.append(("macro-member-named-once:%s:sizeof" % mname, mk("a" / C.Byte, g=C.GreedyBytes), None, ["g"], "sizeof"))
+    # an explicit Error inside an alternative passes through Select / Optional with the full chain, in both directions
+    for aname, alt, val, chain in (("struct-alt", lambda: C.Select(C.Struct("x" / C.Error), C.Byte), dict(x=None), ["x"]),
+                                   ("named-alt", lambda: C.Select(first=C.Struct("k" / C.Byte, "x" / C.Error), second=C.Byte), dict(k=1, x=None), ["first", "x"]),
+                                   ("later-alt", lambda: C.Select(C.Const(b"Z"), "alt" / C.Struct("x" / C.Error)), dict(x=None), ["alt", "x"]),
+                                   ("optional", lambda: C.Optional(C.Struct("x" / C.Error)), dict(x=None), ["x"])):
+        for wname, wrap, pre, mkval in (("direct", lambda x: C.Struct("a" / x), ["a"], lambda v: dict(a=v)),
+                                        ("nested", lambda x: C.Struct("h" / C.Byte, "msg" / C.Struct("sel" / x, "t" / C.Byte)), ["msg", "sel"], lambda v: dict(h=1, msg=dict(sel=v, t=2))),
+                                        ("array", lambda x: C.Struct("xs" / C.Array(2, "e" / C.Struct("f" / x))), ["xs", "e", "f"], lambda v: dict(xs=[dict(f=v), dict(f=v)]))):
+            cases.append(("explicit-error-through-select:%s:%s" % (aname, wname), wrap(alt()), b"\x01\x02\x03\x04", pre + chain, "parse"))
+            cases.append(("explicit-error-through-select:%s:%s" % (aname, wname), wrap(alt()), mkval(val), pre + chain, "build"))
     for label, d, arg, chain, how in cases:
         ctx.ev()
         case = {"op": "explicit-parse-failure", "label": label}
@@ -555,11 +580,13 @@ def explicit_parse_failures(ctx):
                 d.parse(arg)
             elif how == "parse_stream":
                 d.parse_stream(arg)
+            elif how == "sizeof":
+                d.sizeof()
             else:
                 d.build(arg)
             ctx.count("explicit_failure_accepted:" + label)
         except C.ConstructError as e:
-            check_path(ctx, e, "(building)" if how == "build" else "(parsing)", chain, "build" if how == "build" else "parse", case, label)
+            check_path(ctx, e, "(building)" if how == "build" else "(sizeof)" if how == "sizeof" else "(parsing)", chain, how if how in ("build", "sizeof") else "parse", case, label)
             ctx.count("explicit_failures")
         except Exception as e:
             ctx.violation("%s-error-not-a-ConstructError:%s" % ("build" if how == "build" else "parse", type(e).__name__), "%s: raised %s: %s" % (label, type(e).__name__, str(e)[:120]), case)
